@@ -149,6 +149,10 @@ def safe_parse(json_str):
   except ValueError:
     return {}
 
+# Reads a key of parsed JSON options, which may be valid JSON without being an object.
+def _get_option(options, key, default):
+  return options.get(key, default) if isinstance(options, dict) else default
+
 @migration(schema_version=1)
 def migration1(tdset):
   """
@@ -616,7 +620,7 @@ def migration15(tdset):
     # If the field belongs to the section and the field's colRef is in its filterSpec,
     # pull the filter setting from the section.
     filter_spec = specs.get(f.parentId)
-    if filter_spec and str(f.colRef) in filter_spec:
+    if isinstance(filter_spec, dict) and str(f.colRef) in filter_spec:
       doc_actions.append(actions.UpdateRecord('_grist_Views_section_field', f.id, {
         'filter': json.dumps(filter_spec[str(f.colRef)])
       }))
@@ -847,7 +851,10 @@ def migration25(tdset):
 
   num_filters = len(col_info['filter'])
   if num_filters > 0:
-    doc_actions.append(actions.BulkAddRecord('_grist_Filters', [None] * num_filters, col_info))
+    # The table is new, so these are the ids the records get. They need to be explicit, since a
+    # later migration in the same run (34) updates these records by id.
+    doc_actions.append(actions.BulkAddRecord('_grist_Filters', list(range(1, num_filters + 1)),
+                                             col_info))
 
   return tdset.apply_doc_actions(doc_actions)
 
@@ -1135,7 +1142,7 @@ def migration34(tdset):
     # existing raw section filters to continue appearing in the filter bar, we'll pretend
     # here that raw sections have a filterBar value of True. Note that after this migration
     # it will be possible for raw sections to have unpinned filters.
-    s.id: bool(s.id in raw_section_ids or safe_parse(s.options).get('filterBar', False))
+    s.id: bool(s.id in raw_section_ids or _get_option(safe_parse(s.options), 'filterBar', False))
     for s in sections
   }
 
@@ -1173,7 +1180,7 @@ def migration35(tdset):
   acl_rule_updates = []
   for acl_rule_rec in acl_rules:
     acl_formula = safe_parse(acl_rule_rec.aclFormulaParsed)
-    if not acl_formula or acl_formula[0] != 'Comment':
+    if not isinstance(acl_formula, list) or len(acl_formula) < 3 or acl_formula[0] != 'Comment':
       continue
 
     acl_rule_updates.append((
